@@ -9,7 +9,7 @@
     state digest (SHA-256 of the pickle) of an idle bandit and of the policy tuples it was built from must not
     change; it is checked after every single call on the others, so the witness names the call that leaked.
 
-As built: Scenario extras: warm starts with an exact tie between trained arms (string labels), trees created by add_arm and trained on tie-rich data, LinTS on huge nearly collinear contexts, bystander bandits that add / remove arms although a distribution is configured; hostile neighbours (same training data, arm features one coordinate off by one, values -1 / -2); in every second case the scenario is replayed while mirror bandits (other seed, same call shapes) are used concurrently from other threads of the caller (switch interval 1 microsecond). Interpreter-wide state (numpy error mode, numpy global generator, print options, logging root) is part of the idle invariant.
+As built: Scenario extras: warm starts with an exact tie between trained arms (string labels), trees created by add_arm and trained on tie-rich data, LinTS on huge nearly collinear contexts, bystander bandits that add / remove arms although a distribution is configured; hostile neighbours (same training data, arm features one coordinate off by one, values -1 / -2); in every second case the scenario is replayed while mirror bandits (other seed, same call shapes) are used concurrently from other threads of the caller (switch interval 1 microsecond). Interpreter-wide state (numpy error mode, numpy global generator, print options, logging root) is part of the idle invariant. Round 8: half of the LSHNearest scenarios use 53 / 60 hyperplanes with two worker processes (bucket identity across processes with different hash seeds).
 """
 from mon import env
 import copy
